@@ -126,6 +126,16 @@ def template_position_case(args):
             got = "%s: %s" % (type(e).__name__, str(e)[:80])
         if got != want:
             out.append({"expression": src, "position": "argument default", "expected": want, "got": got})
+        # as the default of a def nested in a def, its names coming from the context: the lookups have to be in place
+        # before the inner def is defined, whether its name sorts before or after theirs
+        for inner in ("A0", "zz"):
+            try:
+                got3 = Template('<%%def name="outer()"><%%def name="%s(v=%s)">${repr(v)}</%%def>${%s()}</%%def>${outer()}'
+                                % (inner, src, inner)).render_unicode(**env)
+            except Exception as e:
+                got3 = "%s: %s" % (type(e).__name__, str(e)[:80])
+            if got3 != want:
+                out.append({"expression": src, "position": "default of a nested def named %s, names from the context" % inner, "expected": want, "got": got3})
         try:
             got2 = Template("${'x' | wrap(%s)}" % src).render_unicode(wrap=lambda v: (lambda s: repr(v)), **env)
         except Exception as e:
